@@ -19,6 +19,47 @@ def main():
             info["setlocale"] = locale.setlocale(locale.LC_ALL, "")
         except locale.Error as e:
             info["setlocale"] = "error: " + str(e)
+    if "--fake-world" in sys.argv:
+        # a different "world" as seen through the standard library: clock shifted by ~400 days, other pid / host /
+        # user, a different state of the global random generator.  Patched before the repository is imported.
+        import datetime as _dt
+        import os as _os
+        import random as _random
+        import socket as _socket
+        import time as _time
+
+        shift = 400 * 86400 + 12345.678
+        _rt, _rtn, _rm = _time.time, _time.time_ns, _time.monotonic
+        _time.time = lambda: _rt() + shift
+        _time.time_ns = lambda: _rtn() + int(shift * 1e9)
+        _time.monotonic = lambda: _rm() + 98765.4
+
+        class _FakeDateTime(_dt.datetime):
+            @classmethod
+            def now(cls, tz=None):
+                return _dt.datetime.fromtimestamp(_rt() + shift, tz)
+
+            @classmethod
+            def utcnow(cls):
+                return _dt.datetime.fromtimestamp(_rt() + shift, _dt.timezone.utc).replace(tzinfo=None)
+
+            @classmethod
+            def today(cls):
+                return cls.now()
+
+        class _FakeDate(_dt.date):
+            @classmethod
+            def today(cls):
+                return _FakeDateTime.now().date()
+
+        _dt.datetime = _FakeDateTime
+        _dt.date = _FakeDate
+        _os.getpid = lambda: 4242
+        _os.getppid = lambda: 4241
+        _socket.gethostname = lambda: "another-host"
+        _os.environ.update(USER="someone-else", LOGNAME="someone-else", HOSTNAME="another-host", HOME="/nonexistent-home")
+        _random.seed(987654321)
+        info["fake_world"] = True
     from pyabv.impl import impl
     from pyabv.run import assert_tree, jsonable, unjson
 
